@@ -43,8 +43,15 @@ def tasks(tier, seed):
         ts.append({"part": "codes", "lo": lo, "hi": lo + 4096, "name": "codes/%d" % lo})
     ts.append({"part": "closebody", "name": "closebody"})
     for api in ("recv_data_frame", "recv"):
-        for first in range(8):
-            ts.append({"part": "seq", "api": api, "first": first, "depth": depth(tier), "name": "seq/%s/%d" % (api, first)})
+        for fire in (0, 1):
+            for skip in (0, 1):
+                for first in range(8):
+                    ts.append({"part": "seq", "api": api, "first": first, "depth": depth(tier), "fire": fire, "skip": skip,
+                               "name": "seq/%s/f%d/s%d/%d" % (api, fire, skip, first)})
+        for prelude in ("connected", "reused-midmessage", "reused-midframe", "after-send_close"):
+            for first in range(8):
+                ts.append({"part": "seq", "api": api, "first": first, "depth": depth(tier) - 1, "fire": 0, "skip": 0, "prelude": prelude,
+                           "name": "seq/%s/%s/%d" % (api, prelude, first)})
     return ts
 
 
@@ -111,7 +118,9 @@ def call_api(ws, api):
         return ("closed",)
 
 
-def bytes_case(b0, masked, n, in_msg, api):
+def bytes_case(b0, masked, n, in_msg, api, fire=0):
+    if fire:
+        return bytes_case_fire(b0, masked, n, api)
     fin, rsv, op = b0 >> 7, (b0 >> 4) & 7, b0 & 0xF
     payload = body_for(op, n)
     stream = b""
@@ -168,6 +177,36 @@ def bytes_case(b0, masked, n, in_msg, api):
     return None
 
 
+def bytes_case_fire(b0, masked, n, api):
+    """fire_cont_frame=True: every fragment is handed out at once, so the in-message state is reached by a *delivered* first fragment."""
+    fin, rsv, op = b0 >> 7, (b0 >> 4) & 7, b0 & 0xF
+    payload = body_for(op, n)
+    sock = env.ScriptSock(R.encode(R.TEXT, b"a", fin=0), at_end="timeout")
+    ws = env.make_ws(sock, fire_cont_frame=True)
+    r = call_api(ws, api)
+    want = ("ret", (R.TEXT, b"a")) if api == "recv_data_frame" else ("ret", "a")
+    if r != want:
+        raise Violation({"kind": "prefix-fragment", "api": api, "fire": 1}, "a first text fragment with fire_cont_frame gave %r" % (r,))
+    sock.stream += R.encode(op, payload, byte0=b0, mask=b"\x21\x43\x65\x87" if masked else None)
+    r = call_api(ws, api)
+    why = classify(fin, rsv, op, n, True, payload) or seq_class(op, True)
+    desc = "first byte 0x%02x (fin=%d rsv=%d opcode=%d) len=%d masked=%d state=in-message fire_cont_frame=True via %s" % (b0, fin, rsv, op, n, masked, api)
+    if why is not None:
+        if r[0] != "protocol":
+            return ({"kind": "illegal-frame-not-rejected", "class": why, "api": api, "fire": 1},
+                    "forbidden frame (%s) was not rejected with a protocol exception: outcome %.80r for %s" % (why, r, desc))
+        return None
+    if r[0] in ("protocol", "payload", "closed"):
+        return ({"kind": "legal-frame-rejected", "opclass": R.NAMES.get(op, "?"), "api": api, "outcome": r[0], "fire": 1},
+                "legal frame rejected (%s): %s" % (r[0], desc))
+    if api == "recv_data_frame":
+        exp = ("ret", (op, payload))
+        if r != exp:
+            return ({"kind": "legal-frame-misdelivered", "opclass": R.NAMES.get(op, "?"), "api": api, "fire": 1},
+                    "legal frame delivered as %.80r, expected %.80r: %s" % (r, exp, desc))
+    return None
+
+
 def close_case(body, api, lenform=None):
     frame = R.encode(R.CLOSE, body, lenform=lenform)
     sock = env.ScriptSock(frame, at_end="timeout")
@@ -209,17 +248,16 @@ KINDS = [("T0", R.TEXT, 0), ("T1", R.TEXT, 1), ("B0", R.BINARY, 0), ("B1", R.BIN
 class SeqHarness:
     """All frame sequences: at every step the explorer picks one of 8 frame kinds; merged on (impl snapshot, ref state, depth)."""
 
-    def __init__(self, api, first, depth):
-        self.api, self.first, self.depth = api, first, depth
+    def __init__(self, api, first, depth, fire=0, skip=0, prelude="fresh"):
+        self.api, self.first, self.depth, self.fire, self.skip, self.prelude = api, first, depth, fire, skip, prelude
 
     def __call__(self, ch):
         lib.reset_globals()
         env.install_urandom("counter")
-        sock = env.ScriptSock(b"", at_end="timeout")
-        ws = env.make_ws(sock)
+        ws, sock = env.prepared_ws(self.prelude, fire_cont_frame=bool(self.fire), skip_utf8_validation=bool(self.skip))
         seq = R.Sequencer()
         rea = R.Reassembler()
-        hist = []
+        hist = [] if self.prelude == "fresh" else ["<%s>" % self.prelude]
         for d in range(self.depth):
             if d == 0:
                 k = self.first
@@ -234,16 +272,23 @@ class SeqHarness:
             allowed = seq.allows(fin, op)
             if not allowed:
                 if r[0] != "protocol":
-                    raise Violation({"kind": "illegal-sequence-not-rejected", "class": seq_class(op, seq.in_msg is not None), "api": self.api},
-                                    "history %s: frame %s is forbidden here (%s) but the outcome was %.60r" % (
-                                        " ".join(hist), name, seq_class(op, seq.in_msg is not None), r))
+                    raise Violation({"kind": "illegal-sequence-not-rejected", "class": seq_class(op, seq.in_msg is not None), "api": self.api,
+                                     "fire": self.fire},
+                                    "history %s (fire_cont_frame=%s skip_utf8_validation=%s): frame %s is forbidden here (%s) but the outcome was %.60r" % (
+                                        " ".join(hist), bool(self.fire), bool(self.skip), name, seq_class(op, seq.in_msg is not None), r))
                 return ("rejected", d)
             seq.step(fin, op)
             if r[0] in ("protocol", "payload", "closed"):
-                raise Violation({"kind": "legal-sequence-rejected", "frame": name, "api": self.api},
+                raise Violation({"kind": "legal-sequence-rejected", "frame": name, "api": self.api, "fire": self.fire, "prelude": self.prelude},
                                 "history %s: every frame is allowed by RFC 6455 but %s was answered with %r" % (" ".join(hist), name, r))
             if op in R.CONTROL:
                 exp = ("ret", (op, payload)) if self.api == "recv_data_frame" else ("timeout",)
+            elif self.fire:
+                rea.feed(fin, op, payload)
+                if self.api == "recv_data_frame":
+                    exp = ("ret", (op, payload))
+                else:  # recv(): text -> str, binary -> bytes, a continuation fragment comes back as "" (delivery is C04's subject)
+                    exp = ("ret", payload.decode() if op == R.TEXT else (payload if op == R.BINARY else ""))
             else:
                 m = rea.feed(fin, op, payload)
                 if m is None:
@@ -290,6 +335,18 @@ def run_task(desc):
                             res["execs"] += 1
                             seen += 1
                             rec(fail, rep)
+                    for api in ("recv_data_frame", "recv"):
+                        rep = {"case": "bytes", "b0": b0, "masked": masked, "n": n, "in_msg": True, "api": api, "fire": 1}
+                        try:
+                            fail = bytes_case(b0, masked, n, True, api, 1)
+                        except Exception as e:
+                            v = as_violation(e)
+                            if v is None:
+                                raise
+                            fail = (dict(v.sig, api=api, fire=1), v.what + " [first byte 0x%02x len=%d fire_cont_frame]" % (b0, n))
+                        res["execs"] += 1
+                        seen += 1
+                        rec(fail, rep)
         res["samples"].append({"first_bytes": [desc["lo"], desc["hi"] - 1], "length_classes": [0, 1, 2, 125, 126, 200, 65536]})
     elif part == "codes":
         for code in range(desc["lo"], desc["hi"]):
@@ -334,13 +391,14 @@ def run_task(desc):
         # skip_utf8_validation: reason not checked, code still is
         res["samples"].append({"close_bodies": [c.hex() for c in cases[:8]]})
     else:
-        h = SeqHarness(desc["api"], desc["first"], desc["depth"])
+        h = SeqHarness(desc["api"], desc["first"], desc["depth"], desc.get("fire", 0), desc.get("skip", 0), desc.get("prelude", "fresh"))
         ex = Explorer(h, bound=None, merge=True)
         ex.explore()
         runner.add_explorer(res, ex)
         seen += ex.states
         for v, choices in ex.violations:
-            runner.add_failure(res, v.sig, v.what, {"case": "seq", "api": desc["api"], "first": desc["first"], "depth": desc["depth"], "choices": choices}, v.detail)
+            runner.add_failure(res, v.sig, v.what, {"case": "seq", "api": desc["api"], "first": desc["first"], "depth": desc["depth"],
+                                                    "fire": desc.get("fire", 0), "skip": desc.get("skip", 0), "prelude": desc.get("prelude", "fresh"), "choices": choices}, v.detail)
         res["samples"].append({"sequence_search": desc["name"], "states": ex.states, "transitions": ex.transitions, "executions": ex.execs})
     res["distinct"] = seen
     if part != "seq":
@@ -350,11 +408,11 @@ def run_task(desc):
 
 def replay(rep):
     if rep["case"] == "bytes":
-        fail = bytes_case(rep["b0"], rep["masked"], rep["n"], rep["in_msg"], rep["api"])
+        fail = bytes_case(rep["b0"], rep["masked"], rep["n"], rep["in_msg"], rep["api"], rep.get("fire", 0))
     elif rep["case"] == "close":
         fail = close_case(rep["body"], rep["api"], rep.get("lenform"))
     else:
-        h = SeqHarness(rep["api"], rep["first"], rep["depth"])
+        h = SeqHarness(rep["api"], rep["first"], rep["depth"], rep.get("fire", 0), rep.get("skip", 0), rep.get("prelude", "fresh"))
         out, v, ch = replay_choices(h, rep["choices"])
         return None if v is None else {"sig": v.sig, "what": v.what}
     return None if fail is None else {"sig": fail[0], "what": fail[1]}
